@@ -38,7 +38,9 @@ func engineAPI(c *fw.Ctx, r *rand.Rand, idx int) {
 		return fmt.Sprintf("engine %s options %v: %s", rc.name, opts, strings.Join(l, "; "))
 	}
 	var g *ref.Game
-	active := false
+	// whether an analysis is active: known for every call but one (a well-formed but unplayable move may or may
+	// not halt it: the contract does not say), after which the next Analyze / Halt tells
+	active, unsure := false, false
 	var outs []<-chan search.PV
 	type user struct{ stop, done chan struct{} }
 	var users []user
@@ -59,7 +61,7 @@ func engineAPI(c *fw.Ctx, r *rand.Rand, idx int) {
 			c.Violate("api:reset", "Reset(%q) failed: %v: %s", l.start.FEN(), err, what())
 			return false
 		}
-		active = false
+		active, unsure = false, false
 		g = ref.NewGame(l.start)
 		for _, m := range l.moves {
 			if err := e.Move(ctx, m.String()); err != nil {
@@ -126,7 +128,45 @@ func engineAPI(c *fw.Ctx, r *rand.Rand, idx int) {
 				return
 			}
 			g.Push(m)
-			active = false
+			active, unsure = false, false
+		case 12: // two callers offer different moves of the side to move at the same moment: one of them is played
+			var ms []ref.Move
+			for _, m := range g.Cur.LegalMoves() {
+				if m.Kind == ref.KNormal || m.Kind == ref.KCapture || m.Kind == ref.KJump {
+					ms = append(ms, m)
+				}
+			}
+			if len(ms) < 2 {
+				continue
+			}
+			i1 := r.Intn(len(ms))
+			i2 := (i1 + 1 + r.Intn(len(ms)-1)) % len(ms)
+			m1, m2 := ms[i1], ms[i2]
+			// after either move the other must not be playable (same mover; avoid pairs where the second could
+			// be a legal reply of the opponent: impossible, the from-square holds the first mover's piece)
+			op = fmt.Sprintf("Move(%s) || Move(%s)", m1, m2)
+			log = append(log, op)
+			errs := make([]error, 2)
+			done := make(chan struct{}, 2)
+			for k, m := range []ref.Move{m1, m2} {
+				go func(k int, s string) { errs[k] = e.Move(ctx, s); done <- struct{}{} }(k, m.String())
+			}
+			<-done
+			<-done
+			active, unsure = false, false
+			c.Count("api_concurrent_moves", 1)
+			switch {
+			case errs[0] == nil && errs[1] == nil:
+				c.Violate("api:concurrent-moves", "two moves of the same side, offered at the same moment, were both played (%v and %v): %s", m1, m2, what())
+				return
+			case errs[0] != nil && errs[1] != nil:
+				c.Violate("api:concurrent-moves", "of two legal moves offered at the same moment neither was played (%v; %v): %s", errs[0], errs[1], what())
+				return
+			case errs[0] == nil:
+				g.Push(m1)
+			default:
+				g.Push(m2)
+			}
 		case 3: // not a legal move
 			s := []string{"e2e5", "a1a1", "xyz", "", "e7e8k", "0000"}[r.Intn(6)]
 			if f, t, p, ok := ref.ParseMoveStr(s); ok {
@@ -142,15 +182,15 @@ func engineAPI(c *fw.Ctx, r *rand.Rand, idx int) {
 				c.Violate("api:move", "%q accepted: %s", s, what())
 				return
 			}
-			if parses {
-				active = false
+			if parses && active {
+				unsure = true
 			}
 		case 4: // take back
 			stopUsers() // a fork's contract: its origin does not take back below the fork point while it is in use
 			op = "TakeBack"
 			log = append(log, op)
 			err := e.TakeBack(ctx)
-			active = false
+			active, unsure = false, false
 			if g.Plies() == 0 {
 				if err == nil {
 					c.Violate("api:takeback", "TakeBack succeeded without a move to take back: %s", what())
@@ -195,6 +235,10 @@ func engineAPI(c *fw.Ctx, r *rand.Rand, idx int) {
 			op = fmt.Sprintf("Analyze(%v)", o.DepthLimit)
 			log = append(log, op)
 			out, err := e.Analyze(ctx, o)
+			if unsure {
+				unsure = false
+				active = err != nil // refused: the earlier analysis is still there; accepted: it was halted
+			}
 			if active {
 				if err == nil {
 					c.Violate("api:analyze", "a second Analyze was accepted while one is active: %s", what())
@@ -217,6 +261,9 @@ func engineAPI(c *fw.Ctx, r *rand.Rand, idx int) {
 			op = "Halt"
 			log = append(log, op)
 			_, err := e.Halt(ctx)
+			if unsure {
+				unsure, active = false, err == nil
+			}
 			if (err == nil) != active {
 				c.Violate("api:halt", "Halt returned %v with an analysis active = %v: %s", err, active, what())
 				return
